@@ -29,7 +29,8 @@ func init() {
 			"name exactly the validators whose Delegations hold an entry for it; (4) per validator Token == SelfToken + sum(Delegations.Token), Stake == SelfStake + sum(Delegations.Stake), every component stake == token / StakeUint, " +
 			"Delegations sorted and unique. Clause (4) is maintained by the CALLERS (staking handlers), not by StateDB: here it decides only that UpdateDelegation, PartialCopy/UpdateValidator, the journal, Copy and commit/reload " +
 			"preserve what a caller following teDeposit/teWithdraw/teDelegationAdd/Sub/takePenalty computed; the handlers' own arithmetic is decided in the CHAIN world. After commit the validator-side observation of the reopened state and " +
-			"of a NewVldReader on the validator root (the consensus read path) must equal the live object's. A run is non-trivial when a revert, restart, cap flush or copy switch fired.",
+			"of a NewVldReader on the validator root (the consensus read path) must equal the live object's. (5) in a third of the EndBlock phases GetValidators().List() is read on the object being mutated, as distributeRewards " +
+			"does before YouV5 (staking/endblock.go:304): it must be the current records. A run is non-trivial when a revert, restart, cap flush or copy switch fired.",
 		Real: []string{"core/state (StateDB, journal, validators, statistics, withdraw queue, delegations)", "core/state.Database", "trie.Database", "trie"},
 		Stub: []string{"callers of StateDB (operation patterns copied from staking/*.go, core/genesis.go and core/blockchain.go call sites; each generator names its site)"},
 		FaultsNotInjected: []string{
